@@ -987,7 +987,7 @@ func check(id, tier string) int {
 		if isRaceTier(f.tier) {
 			rf.Notes = "found by the free-running race leg: re-run by seed, not schedule-exact"
 			_ = writeReplay(path, rf)
-		} else if i < 4 && f.scenario != nil {
+		} else if i < 4 && f.scenario != nil && os.Getenv("VERIF_NO_MINIMISE") == "" {
 			// confirm in a fresh process, then minimise
 			if s2, _, _, err := replayOnce(rbin, fid, path); err != nil || s2 != sig {
 				note = fmt.Sprintf(" (replay in a fresh process ended in %q, err=%v)", s2, err)
